@@ -58,7 +58,12 @@ func isWalkCtxPtr(t ast.Expr) bool {
 func main() {
 	src := flag.String("src", "/repo/extractor/filesystem/filesystem.go", "Go source file")
 	out := flag.String("out", "", "output .v file (stdout if empty)")
+	structs := flag.String("structs", "", "comma-separated directories: list field accesses of all structs with methods (clients mode)")
 	flag.Parse()
+	if *structs != "" {
+		structsMain(strings.Split(*structs, ","), *out)
+		return
+	}
 	fset := token.NewFileSet()
 	f, err := parser.ParseFile(fset, *src, nil, 0)
 	if err != nil {
@@ -200,27 +205,8 @@ func main() {
 			sort.Strings(l)
 			return l
 		}
-		var visit func(n ast.Node) bool
-		visit = func(n ast.Node) bool {
+		visit := func(n ast.Node) bool {
 			switch x := n.(type) {
-			case *ast.DeferStmt:
-				// defer mu.Unlock(): the mutex stays held until the function returns
-				if se, ok := x.Call.Fun.(*ast.SelectorExpr); ok && se.Sel.Name == "Unlock" {
-					return false
-				}
-			case *ast.ExprStmt:
-				if c, ok := x.X.(*ast.CallExpr); ok {
-					if se, ok := c.Fun.(*ast.SelectorExpr); ok {
-						switch se.Sel.Name {
-						case "Lock", "RLock":
-							held[exprString(se.X)] = true
-							return false
-						case "Unlock", "RUnlock":
-							delete(held, exprString(se.X))
-							return false
-						}
-					}
-				}
 			case *ast.CallExpr:
 				// f(..., wc, ...) with f a function of this file taking the walk context
 				if id, ok := x.Fun.(*ast.Ident); ok {
@@ -250,7 +236,7 @@ func main() {
 			}
 			return true
 		}
-		ast.Inspect(fd.Body, visit)
+		inspectWithLocks(fd.Body, held, exprString, visit)
 	}
 	// print
 	var sb strings.Builder
